@@ -174,8 +174,11 @@ class CleanupTranslator:
             if m.head_pred == lhs_pred and m.body_pred.pred == rhs_pred and m.body_pred.sign == rhs.sign:
                 fits = True
                 for rhs_index, lhs_index in enumerate(m.var_map):
-                    if rhs_symbol.arguments[rhs_index] != lhs_symbol.arguments[lhs_index]:
+                    rhs_arg = rhs_symbol.arguments[rhs_index]
+                    if rhs_arg != lhs_symbol.arguments[lhs_index]:
                         fits = False
+                    if rhs.sign == Sign.Negation and rhs_arg.ast_type == ASTType.Variable and rhs_arg.name == "_":
+                        fits = False  # not q(_) means "no q at all", which p(_) does not imply
                 if fits:
                     return True
         return False
